@@ -51,7 +51,8 @@ func init() {
 		{"C14", "alpine", "C14Pair", "alpine Compare gives the same sign as apk-tools on well-formed versions with equal component counts and no leading zeros", "Go transliteration of the rule list (numeric components, letter, suffix ranks with numbers, extra pre/post suffix, -rN), validated at dev time on the 288 well-formed rows of apk-tools' own version.data shipped in the repository (0 mismatches)",
 			func(tier string) []string {
 				out := []string{"{d}", "{d}.{d}", "{d}.{d}.{d}", "{d}.{d}{l}", "{d}.{d}_{l}{l}{d}", "{d}.{d}_{l}", "{d}.{d}_{l}{d}", "{d}.{d}_{l}{l}{l}", "{d}.{d}_{l}{l}{l}{d}", "{d}.{d}_{l}{l}{l}{l}{d}", "{d}.{d}_{l}{l}{l}{l}{l}", "{d}.{d}{l}_{l}{l}{l}",
-					"{d}.{d}_{l}{l}_{l}", "{d}.{d}_{l}{l}{l}_{l}{d}", "{d}.{d}-r{d}", "{d}.{d}_{l}{l}{d}-r{d}", "{d}.{d}{l}-r{d}", "{D}{d}.{d}", "{d}.{D}{d}", "{d}.{d}_{l}{l}", "{d}.{d}{l}_{l}{d}"}
+					"{d}.{d}_{l}{l}_{l}", "{d}.{d}_{l}{l}{l}_{l}{d}", "{d}.{d}-r{d}", "{d}.{d}_{l}{l}{d}-r{d}", "{d}.{d}{l}-r{d}", "{D}{d}.{d}", "{d}.{D}{d}", "{d}.{d}_{l}{l}", "{d}.{d}{l}_{l}{d}",
+					"{d}.{d}_{l}{l}{l}{l}{l}_{l}{l}{l}_{l}", "{d}.{d}_{l}{d}_{l}{l}{l}{d}_{l}{l}{d}", "{d}.{d}_{l}{l}_{l}{l}{l}_{l}{l}{l}{l}{l}", "{d}.{d}_{l}{l}{l}_{l}{l}_{l}{l}{l}{l}"}
 				if tier == "thorough" {
 					out = append(out, "{d}.{d}.{d}.{d}", "{d}.{d}.{d}.{d}.{d}", "{d}.{d}_{l}{l}{l}{d}_{l}{d}", "{d}.{d}_{l}_{l}{l}_{l}{l}{l}", "{d}.{D}{d}{d}{d}{d}{d}{d}{d}{d}{d}", "{d}.{d}.{d}_{l}{l}{l}{d}-r{D}{d}")
 				}
